@@ -304,7 +304,7 @@ impl<T: Elem> World<T> {
         self.report_at(t.tid as i32, t.op as i32, class, detail)
     }
     fn report_at(&self, tid: i32, op: i32, class: &str, detail: String) {
-        let own = class.starts_with(&self.prefix) || class.starts_with("liveness") || class.starts_with("harness");
+        let own = crate::props::owns(&self.prefix, class) || class.starts_with("liveness") || class.starts_with("harness");
         if own {
             let mut v = self.viol.lock().unwrap();
             if v.len() < 16 {
@@ -316,7 +316,7 @@ impl<T: Elem> World<T> {
     }
     /// read-only mapping of immutable inputs: part of the C15 and C03 oracles (an mprotect pair per call elsewhere buys nothing)
     fn ro_props(&self) -> bool {
-        matches!(self.case.prop.as_str(), "C15" | "C03" | "C13")
+        matches!(self.case.prop.as_str(), "C15" | "C03" | "C13" | "C12")
     }
     fn is(&self, p: &str) -> bool {
         self.case.prop == p
@@ -415,11 +415,38 @@ impl<T: Elem> World<T> {
     }
 
     /// DFT reference sub-oracle: relative L2 error per chunk within the bound the properties state.
-    fn check_dft(&self, t: &TCtx<T>, n: usize, inverse: bool, input: &[Complex<T>], ispec: &InputSpec, out: &[Complex<T>], what: &str) {
+    /// Rounding allowance of the DFT-reference sub-oracle. Planned transforms: the bound C02 states. Constructor nests
+    /// (C12 names C01 "up to rounding" but no bound): every node of the nest gets its own C02-style budget, times four
+    /// (Bluestein and Rader run their inner transform twice) - still orders of magnitude below any structural error.
+    fn dft_allowance(&self, inst: InstRef, n: usize) -> f64 {
+        if let (true, InstRef::Shared(i)) = (self.is("C12"), inst) {
+            if let Some(d) = self.case.insts.get(i as usize) {
+                fn nodes(s: &crate::world::Spec, acc: &mut Vec<usize>) {
+                    use crate::world::Spec::*;
+                    acc.push(s.len());
+                    match s {
+                        Radix4Base(_, b) | Radix3Base(_, b) | Raders(b) | Bluestein(_, b) => nodes(b, acc),
+                        MixedRadix(a, b) | MixedRadixSmall(a, b) | GoodThomas(a, b) | GoodThomasSmall(a, b) => {
+                            nodes(a, acc);
+                            nodes(b, acc);
+                        }
+                        _ => {}
+                    }
+                }
+                let mut v = Vec::new();
+                nodes(&d.spec, &mut v);
+                return 4.0 * v.iter().map(|l| bound::<T>((*l).max(1))).sum::<f64>();
+            }
+        }
+        bound::<T>(n)
+    }
+
+    #[allow(clippy::too_many_arguments)]
+    fn check_dft(&self, t: &TCtx<T>, inst: InstRef, n: usize, inverse: bool, input: &[Complex<T>], ispec: &InputSpec, out: &[Complex<T>], what: &str) {
         if n == 0 {
             return;
         }
-        let b = bound::<T>(n);
+        let b = self.dft_allowance(inst, n);
         let class = format!("{}.dft-mismatch", self.prefix);
         for (ci, (xin, xout)) in input.chunks(n).zip(out.chunks(n)).enumerate() {
             let nz: Vec<(usize, C64)> = xin
@@ -529,13 +556,13 @@ impl<T: Elem> World<T> {
                 if !bits_eq(o, r) {
                     let i = first_diff(o, r).unwrap_or(0);
                     for cls in ["c11.bits-differ", "c08.bits-differ", "c10.bits-differ"] {
-                        if cls.starts_with(&self.prefix) {
+                        if crate::props::owns(&self.prefix, cls) {
                             self.report(t, cls, format!("{}: output differs from the isolated call at element {} ({:?} vs {:?})", what, i, o.get(i), r.get(i)));
                         }
                     }
                 }
                 if *dft_ref {
-                    self.check_dft(t, n, fft.fft_direction() == rustfft::FftDirection::Inverse, &x, input, o, &what);
+                    self.check_dft(t, *inst, n, fft.fft_direction() == rustfft::FftDirection::Inverse, &x, input, o, &what);
                 }
             }
             (Err(m), Ok(_)) => {
@@ -554,7 +581,7 @@ impl<T: Elem> World<T> {
                 if well {
                     // a well-shaped call that panics even in isolation: C09's business (and C03's "never UB" is intact)
                     self.report(t, "c09.good-panicked", format!("{}: well-shaped call panics: {}", what, m));
-                    if self.is("C13") || self.is("C10") {
+                    if self.is("C13") || self.is("C10") || self.is("C12") {
                         let class = format!("{}.call-panicked", self.prefix);
                         self.report(t, &class, format!("{}: well-shaped call panics: {}", what, m));
                     }
@@ -1243,7 +1270,7 @@ fn build_world<T: Elem>(case: &Case, sched: Option<Arc<Sched>>) -> World<T> {
             }
             Err(p) => {
                 let msg = panic_msg(&p);
-                for cls in ["c03.build-panic", "c13.build-panic"] {
+                for cls in ["c03.build-panic", "c13.build-panic", "c12.build-panic"] {
                     if cls.starts_with(&w.prefix) {
                         w.report_at(-1, i as i32, cls, format!("building {} {:?} within documented preconditions panicked: {}", d.spec.short(), d.dir, msg));
                     }
